@@ -16,7 +16,8 @@ Parts
            every rule carries a %comment (no shipped rule has one, so add_comments is unobservable otherwise)
   cross    per corpus vendor: every distinct configuration of the vendor as old against every other as new
   forest   per hardware model and per rule of the compiled shipped rulebook that carries a non-default patch logic or
-           diff logic: all label-annotated forests with <= N nodes over a small row universe synthesised from that rule
+           diff logic - and, for four model families with %if hw.<family> sections in the shipped texts (Huawei CE / NE /
+           Quidway, Cisco ASR), per rule that only that family's rendering of the rulebook has: all label-annotated forests with <= N nodes over a small row universe synthesised from that rule
            line (two keys, three tails), two sibling rows of plain rules and two child rows, nested under rows
            synthesised for the whole rule path.  A node label says whether the row is in old only, new only or both.
 """
@@ -99,9 +100,24 @@ def _tests():
     return tests, patch_data
 
 
+# hardware families for which the shipped rulebook texts hold %if hw.<family> sections: label -> devdb sequence (the model
+# string is taken from the devdb, validated by mc/hwmodels.py)
+MODEL_LABELS = {
+    "model:huawei-ce": ("Huawei", "CE", "CE6800", "CE6870"),
+    "model:huawei-ne": ("Huawei", "NE", "NE40E"),
+    "model:huawei-quidway": ("Huawei", "Quidway", "S5700"),
+    "model:cisco-asr": ("Cisco", "ASR", "ASR9000"),
+}
+
+
 @functools.lru_cache(None)
 def hw_of(label):
-    """label: a vendor of env.ALL_VENDORS or a hardware label used by the corpus ('asr', 'huawei ce')."""
+    """label: a vendor of env.ALL_VENDORS, a hardware label used by the corpus ('asr', 'huawei ce'), or a model label."""
+    if label in MODEL_LABELS:
+        from annet.annlib.netdev.views.hardware import HardwareView
+        from mc import hwmodels
+        model = next(m for s_, m in hwmodels.models() if s_ == MODEL_LABELS[label])
+        return HardwareView(model, None)
     if label in env.HW_MODEL:
         return env.hw(label)
     tests, _ = _tests()
@@ -116,7 +132,11 @@ def forest_labels(tier):
     """thorough: every hardware label.  quick: the vendors of env.ALL_VENDORS, one per distinct compiled patching
     rulebook (h3c / optixtrans / iosxr get the very same compiled object as huawei / cisco and are left to thorough)."""
     if tier == "thorough":
-        return hw_labels()
+        return hw_labels() + list(MODEL_LABELS)
+    return _quick_labels() + list(MODEL_LABELS)
+
+
+def _quick_labels():
     from annet import rulebook
     out, seen = [], set()
     for label in env.ALL_VENDORS:
@@ -551,13 +571,27 @@ def custom_rules(label):
     rb = rulebook.get_rulebook(hw)
     default_diff = import_rulebook_function(registry_connector.get()[hw.vendor].diff(False))
     out = []
+    generic = None
+    if label in MODEL_LABELS:
+        # for a model label: the rules its rulebook has and the rulebook of the vendor's generic hardware lacks (or has
+        # under another path) - what %if hw.<family> sections add; the generic rendering is used as data only
+        from annet.hardware import hardware_connector
+        generic = set()
+
+        def collect(rules, path):
+            for scope in ("local", "global"):
+                for raw, rule in rules[scope].items():
+                    generic.add((path, raw))
+                    if rule.get("children"):
+                        collect(rule["children"], path + (raw,))
+        collect(rulebook.get_rulebook(hardware_connector.get().vendor_to_hw(hw.vendor))["patching"], ())
 
     def walk(rules, path):
         for scope in ("local", "global"):
             for raw, rule in rules[scope].items():
                 if rule["type"] == "ignore":
                     continue
-                if _is_custom(rule, default_diff):
+                if (generic is None and _is_custom(rule, default_diff)) or (generic is not None and (path, raw) not in generic):
                     out.append({"path": list(path), "raw": raw, "scope": scope})
                 if rule.get("children"):
                     walk(rule["children"], path + (raw,))
